@@ -128,9 +128,16 @@ func path(v ssa.Value, d int) string {
 	if d > 24 {
 		return "…"
 	}
+	if pathHook != nil && v != nil {
+		if s, ok := pathHook(v); ok {
+			return s
+		}
+	}
 	switch x := v.(type) {
 	case nil:
 		return "<nil>"
+	case *Synth:
+		return x.P
 	case *ssa.Parameter:
 		return x.Name()
 	case *ssa.FreeVar:
@@ -507,6 +514,15 @@ type Fact struct {
 // negation). Short-circuit && / || need no special treatment: go/ssa lowers
 // them to nested Ifs.
 func FactsAt(at ssa.Instruction) []Fact {
+	local := localFactsAt(at)
+	if extra := interprocFacts(at, local); len(extra) > 0 {
+		return append(local, extra...)
+	}
+	return local
+}
+
+// localFactsAt: the intraprocedural part of FactsAt.
+func localFactsAt(at ssa.Instruction) []Fact {
 	var out []Fact
 	fn := at.Parent()
 	for _, b := range fn.Blocks {
